@@ -493,7 +493,10 @@ fn ffi_cond_case(out: &mut Out, rng: &mut SplitMix64, gi: usize)
     }
     // an out-of-range control bit must be refused (before the valid gate is added), exactly as the Rust API refuses it
     let bad_ctl = vec![0usize, nc + rng.below(2) as usize];
-    let ffi_refused = !is_ok(ffi::circuit_add_conditional_gate(ptr, bad_ctl.as_ptr(), 2, target, gname.as_ptr(), bits.as_ptr(), bits.len(), pptr, npar));
+    // (on a scratch circuit, so that an interface that wrongly accepts it does not change the circuit under test)
+    let scratch = ffi::circuit_new(nq, nc);
+    let ffi_refused = !is_ok(ffi::circuit_add_conditional_gate(scratch, bad_ctl.as_ptr(), 2, target, gname.as_ptr(), bits.as_ptr(), bits.len(), pptr, npar));
+    ffi::circuit_free(scratch);
     good &= is_ok(ffi::circuit_add_conditional_gate(ptr, control.as_ptr(), control.len(), target, gname.as_ptr(), bits.as_ptr(), bits.len(), pptr, npar));
     // overwrite the pointed-to values: the gate must follow them
     let mut store = store;
@@ -506,7 +509,7 @@ fn ffi_cond_case(out: &mut Out, rng: &mut SplitMix64, gi: usize)
     let mut twin_ok = true;
     for op in pre.iter() { twin_ok &= sim::add_op(&mut twin, op).is_ok(); }
     let bad_text = format!("cond 2 {} {} {} {} {}", join(&bad_ctl), target, arity, join(&bits), term);
-    let rust_refused = sim::add_op(&mut twin, &bad_text).is_err();
+    let rust_refused = sim::add_op(&mut Circuit::new(nq, nc), &bad_text).is_err();
     twin_ok &= sim::add_op(&mut twin, &cond_text).is_ok();
     out.case(&format!("ffierr {} | invalid control {} | {}", desc, join(&bad_ctl), bad_text),
         &if ffi_refused == rust_refused && ffi_refused { "same".to_string() } else { format!("differs c-interface-refused={} rust-api-refused={}", ffi_refused, rust_refused) });
